@@ -550,6 +550,20 @@ fn de_expr(t: &mut Toks) -> Expression {
             let b = de_expr(t);
             op(Operator::List(a, b))
         }
+        // the SAME subtree on both sides (one allocation shared through Rc clones): only the public
+        // constructors can build this, a parse never does
+        "DupAnd" => {
+            let a = de_expr(t);
+            op(Operator::And(a.clone(), a))
+        }
+        "DupOr" => {
+            let a = de_expr(t);
+            op(Operator::Or(a.clone(), a))
+        }
+        "DupList" => {
+            let a = de_expr(t);
+            op(Operator::List(a.clone(), a))
+        }
         "Not" => op(Operator::Not(de_expr(t))),
         "Prec" => op(Operator::Precedence(de_expr(t))),
         "T" => Expression::Test(de_test(t)),
@@ -786,8 +800,28 @@ fn run_case(line: &str) -> String {
     }
 }
 
+/// `--logger`: a logger that is enabled at every level and FORMATS every record (so that the arguments
+/// of the library's log macros are evaluated), then discards it. The library's results must not
+/// depend on whether the embedding program has installed a logger.
+struct SinkLogger;
+impl log::Log for SinkLogger {
+    fn enabled(&self, _: &log::Metadata) -> bool {
+        true
+    }
+    fn log(&self, record: &log::Record) {
+        let text = format!("{}", record.args());
+        std::hint::black_box(text.len());
+    }
+    fn flush(&self) {}
+}
+static SINK_LOGGER: SinkLogger = SinkLogger;
+
 fn main() {
     std::panic::set_hook(Box::new(|_| {}));
+    if std::env::args().any(|a| a == "--logger") {
+        let _ = log::set_logger(&SINK_LOGGER);
+        log::set_max_level(log::LevelFilter::Trace);
+    }
     let stdin = std::io::stdin();
     let stdout = std::io::stdout();
     let mut out = std::io::BufWriter::new(stdout.lock());
